@@ -535,10 +535,10 @@ def next_end_tokens(state: TokenizerState) -> Iterator[TokenInfo]:
     yield TokenInfo(Token.ENDMARKER, "", (state.lnum, 0), (state.lnum, 0), "")
 
 
-def handle_fstring_progs(state: TokenizerState, endprog: EndProg) -> Iterator[TokenInfo]:
+def handle_fstring_progs(state: TokenizerState, endprog: EndProg) -> Generator[TokenInfo, None, bool]:
     endmatch = state.match(endprog.pattern)
     if (not endmatch) or (not endmatch.lastgroup):
-        return None
+        return False
     start, end = endmatch.span(endmatch.lastgroup)
     if endmatch.lastgroup == "End":  # quote match
         middle_end = end - len(endprog.quote)
@@ -579,6 +579,7 @@ def handle_fstring_progs(state: TokenizerState, endprog: EndProg) -> Iterator[To
             state.pop_mode((state.lnum, end))  # in braces
 
     state.pos = end
+    return True
 
 
 def handle_end_progs(state: TokenizerState) -> Iterator[TokenInfo]:
@@ -590,10 +591,9 @@ def handle_end_progs(state: TokenizerState) -> Iterator[TokenInfo]:
     if state.in_braces():
         return
 
+    matched = False
     if state.in_fstring() or state.in_colon():
-        yield from handle_fstring_progs(state, state.end_progs[-1])
-        # else:
-        #     raise TokenError(f"Expected {endprog.quote} inside f-string", (state.lnum, state.pos))
+        matched = yield from handle_fstring_progs(state, state.end_progs[-1])
 
     elif endmatch := state.match(state.end_progs[-1].pattern):  # all on one line
         end = endmatch.end(0)
@@ -610,8 +610,9 @@ def handle_end_progs(state: TokenizerState) -> Iterator[TokenInfo]:
     ):
         state.end_progs[-1].join_line(state)
         state.pos = state.max
-    # else:
-    #     raise TokenError(f"Invalid string quotes at {state.pos} in {state.line}", (state.lnum, state.pos))
+    elif not matched:
+        # neither the closing quote nor a continuation: the rest of the line is not string text
+        raise TokenError("unterminated string literal", state.end_progs[-1].start)
 
 
 def _tokenize(readline: Callable[[], str]) -> Iterator[TokenInfo]:
